@@ -1503,6 +1503,28 @@ def frag_expectile_check(fn):
     return out + [assign]
 
 
+def frag_leading_raises(fn):
+    """the leading run of top-level `if …: raise …` statements of a method (after the docstring), followed by a synthetic
+    `checked = n_draws` so that the fragment has a value when every check passes"""
+    out = []
+    for s in fn.body:
+        if isinstance(s, ast.Expr) and isinstance(getattr(s, 'value', None), ast.Constant) and isinstance(s.value.value, str):
+            continue
+        if isinstance(s, ast.If) and not s.orelse and len(s.body) == 1 and isinstance(s.body[0], ast.Raise):
+            out.append(s)
+        else:
+            break
+    if not out:
+        raise Unsupported('no leading `if …: raise …` statement')
+    ln = out[-1].end_lineno or out[-1].lineno
+    assign = ast.parse('checked = n_draws').body[0]
+    for node in ast.walk(assign):
+        if hasattr(node, 'lineno'):
+            node.lineno = ln
+            node.end_lineno = ln
+    return out + [assign]
+
+
 MODEL_CLASSES = ['GAM', 'LinearGAM', 'LogisticGAM', 'PoissonGAM', 'GammaGAM', 'InvGaussGAM', 'ExpectileGAM']
 
 
@@ -1540,6 +1562,11 @@ def decision_specs(trees):
                              pre=[('expectile', 'α')], params=[], attrs={'self.expectile': ('S', 'expectile')},
                              fragment=frag_expectile_check, frag_return='checked', raises=True,
                              what='the range check of `expectile` at the head of the method; `.error` carries the exception class, `.ok` the accepted value'))
+    specs.append(FormulaSpec('sample_coef_checks', 'dists', ('pygam.py', 'GAM', '_sample_coef', None),
+                             pre=[('is_fitted', 'Bool')], params=['X', 'X', 'X', 'S', 'S', 'X'],
+                             attrs={'self._is_fitted': ('B', 'is_fitted')},
+                             fragment=frag_leading_raises, frag_return='checked', raises=True,
+                             what='the argument checks at the head of the method, in source order; `.error` carries the exception class, `.ok` the accepted `n_draws`'))
     specs.append(FormulaSpec('within_tol', 'dists', ('pygam.py', 'ExpectileGAM', 'fit_quantile', '_within_tol'),
                              pre=[], params=['S', 'S', 'S'], self_param=False,
                              what='`np.abs(x)` ↦ `if x < 0 then -x else x`'))
